@@ -72,6 +72,18 @@ def wUpdate (w : World) : World × String × Nat × Bool × Bool :=
         if r4 == .hung then ({ w with hung := true }, "-", 0, false, false)
         else (w, who, w.now - t0, true, pos)
 
+/-- one final report (debit mode): a rating request for the price, then - when it was answered - the settling
+    account-balance request; (world, elapsed ms, completed) -/
+def wFinal (w : World) : World × Nat × Bool :=
+  let t0 := w.now
+  let (w, r1) := wCallRf w
+  if r1 == .hung then ({ w with hung := true }, 0, false)
+  else if isTimeout r1 then (w, w.now - t0, true)
+  else
+    let (w, r2) := wCallAbmf w
+    if r2 == .hung then ({ w with hung := true }, 0, false)
+    else (w, w.now - t0, true)
+
 def wManyUpdates : Nat → World → World
   | 0, w => w
   | n + 1, w => if w.hung then w else wManyUpdates n (wUpdate w).1
@@ -98,6 +110,11 @@ def peerSteps : List String → World → List String → Option (List String)
       else
         let (w, who, ms, done, pos) := wUpdate w
         peerSteps rest w ((if done then s!"u={who}:{ms}:1:{if pos then 1 else 0}" else "u=-:-:0:0") :: acc)
+    | "F", some _ =>
+      if w.hung then peerSteps rest w ("f=skipped" :: acc)
+      else
+        let (w, ms, done) := wFinal w
+        peerSteps rest w ((if done then s!"f={ms}:1" else "f=-:0") :: acc)
     | "N", some k =>
       let w := wManyUpdates k w
       peerSteps rest w (s!"n={k}:{if w.hung then 0 else 1}" :: acc)
